@@ -10,6 +10,7 @@ import Abmarl.Model.ConfigDriver
 import Abmarl.Model.ObserversDriver
 import Abmarl.Model.DoneDriver
 import Abmarl.Model.PlacementDriver
+import Abmarl.Model.SpacesDriver
 /-! Line-protocol driver: one request per line on stdin, one reply per line on stdout. -/
 open Abmarl
 
@@ -38,6 +39,8 @@ def dispatch (line : String) : String :=
       | "gmerge" => DoneDriver.handleMerge args
       | "gplace" => PlacementDriver.handlePlace args
       | "gmaze" => PlacementDriver.handleMaze args
+      | "ravel" | "unravel" | "ravelspace" | "checkspace" | "flatten" | "unflatten" | "flatspace" =>
+        SpacesDriver.handle op args
       | "ping" => some (.list (.atom "pong" :: args))
       | _ => none
     match r with
